@@ -333,6 +333,12 @@ func checkMapLoop(p *Prog, own *Own, l *mapLoop) (shapes, problems []string) {
 							shapes = append(shapes, fmt.Sprintf("%s writes only into the entry being visited", p.CG().name(callee)))
 							continue
 						}
+						// the loop body was moved into a helper that receives the shared map and the key: the helper
+						// touches the map only at that key
+						if kidx, okh := keyedHelper(callee, j); okh && kidx < len(c.Args) && isKey(c.Args[kidx]) {
+							shapes = append(shapes, fmt.Sprintf("S2 %s touches the shared map only at the range key", p.CG().name(callee)))
+							continue
+						}
 						problems = append(problems, fmt.Sprintf("%s may write into %s, which is shared across iterations (%s)", p.CG().name(callee), describeValue(p, a), p.InstrPos(in)))
 					}
 				}
@@ -652,4 +658,70 @@ func describeValueShort(v ssa.Value) string {
 		return "nil"
 	}
 	return strings.TrimPrefix(fmt.Sprintf("%T", v), "*ssa.")
+}
+
+// keyedHelper: callee uses its map parameter j only as m[k] (read, write, delete) with one and the same
+// parameter k as key, and never hands the map itself on. Returns k's index.
+func keyedHelper(callee *ssa.Function, j int) (int, bool) {
+	if callee == nil || j >= len(callee.Params) || len(callee.AnonFuncs) > 0 {
+		return 0, false
+	}
+	m := callee.Params[j]
+	if _, isMap := m.Type().Underlying().(*types.Map); !isMap {
+		return 0, false
+	}
+	kidx := -1
+	setKey := func(v ssa.Value) bool {
+		par, ok := v.(*ssa.Parameter)
+		if !ok {
+			return false
+		}
+		for i, q := range callee.Params {
+			if q == par {
+				if kidx >= 0 && kidx != i {
+					return false
+				}
+				kidx = i
+				return true
+			}
+		}
+		return false
+	}
+	refs := m.Referrers()
+	if refs == nil {
+		return 0, false
+	}
+	for _, ref := range *refs {
+		switch x := ref.(type) {
+		case *ssa.DebugRef:
+		case *ssa.MapUpdate:
+			if x.Map != ssa.Value(m) || x.Value == ssa.Value(m) || !setKey(x.Key) {
+				return 0, false
+			}
+		case *ssa.Lookup:
+			if x.X != ssa.Value(m) || !setKey(x.Index) {
+				return 0, false
+			}
+		case *ssa.Call:
+			bi, ok := x.Common().Value.(*ssa.Builtin)
+			if !ok {
+				return 0, false
+			}
+			switch bi.Name() {
+			case "len":
+			case "delete":
+				if x.Common().Args[0] != ssa.Value(m) || !setKey(x.Common().Args[1]) {
+					return 0, false
+				}
+			default:
+				return 0, false
+			}
+		default:
+			return 0, false
+		}
+	}
+	if kidx < 0 {
+		return 0, false
+	}
+	return kidx, true
 }
